@@ -124,7 +124,7 @@ func checkLoad(c *pbt.Ctx, cs LoadCase) {
 	var tree generic.PathNode
 	load := func(v *tm.Value) []byte {
 		enc := tm.Encode(v)
-		buf := append(make([]byte, 0, len(enc)), enc...)
+		buf := append(make([]byte, 0, len(enc)+16), enc...)
 		tree.Node = generic.NewNode(thrift.Type(v.K), buf)
 		c.Step("Load recurse=%v %+v", cs.O.Recurse, cs.O)
 		if err := tree.Load(cs.O.Recurse, o); err != nil {
@@ -405,7 +405,7 @@ func checkEdits(c *pbt.Ctx, cs EditCase) {
 	o := cs.O.g()
 	v := cs.V
 	enc := tm.Encode(v)
-	buf := append(make([]byte, 0, len(enc)), enc...)
+	buf := append(make([]byte, 0, len(enc)+16), enc...)
 	tree := generic.PathNode{Node: generic.NewNode(thrift.Type(v.K), buf)}
 	if err := tree.Load(false, o); err != nil {
 		c.Failf("load-error", "Load failed: %v", err)
